@@ -1,225 +1,113 @@
-(* CheckRefuted.v — witnesses by computation: the crash sites (one program per unguarded
-   lookup), the accepted catalogued errors, the false rejections, and the examples showing
-   that the guards of the _partial theorems are inhabited by a non-trivial program. *)
+(* CheckRefuted.v — witnesses by computation: what is still refuted of the faithful model
+   (guard typing D12b, false rejections D24 / D25), the repaired defects now yielding a
+   report (D8–D12a, D21), the AST shape the theorems need, and the examples showing that the
+   guards of the _partial theorems are inhabited by a non-trivial program. *)
 From PFDL Require Import Base Syntax.
-From PFDL.Check Require Import CheckModel CheckProofsC16 Typing Guards Witnesses.
+From PFDL.Check Require Import CheckModel CheckProofsC16 CheckProofsC10 CheckProofsC19 CheckProofsC09
+     CheckProofsC11 Typing TypingProofs Guards Witnesses.
 
 (* ---- a non-trivial program inside every guard ------------------------------------- *)
 (* w_good_small: two structs with nested struct and arrays, a called task with inputs and an
    output, a counting loop with an indexed parameter, a Condition with And / ! / + / <, a
    struct literal with nested struct and arrays, a Parallel block and a parallel loop *)
 Lemma good_small_in_all_guards :
-  wf_dec w_good_small = true /\ crash_free w_good_small = true /\ validate w_good_small = Ok []
-  /\ has_recursion w_good_small = false /\ sh_parloop_call w_good_small = false
-  /\ has_bad_limit w_good_small = false /\ sh_bad_literal w_good_small = false
-  /\ sh_bad_guard w_good_small = false /\ sh_string_eq w_good_small = false.
+  wf_dec w_good_small = true /\ from_grammar w_good_small = true /\ validate w_good_small = Ok []
+  /\ c11_guard w_good_small = true /\ sh_bad_guard w_good_small = false
+  /\ sh_string_eq w_good_small = false /\ sh_array_element w_good_small = false
+  /\ sched_safe w_good_small = true /\ guards_typed w_good_small = true.
 Proof. vm_compute. repeat split; reflexivity. Qed.
 
-(* ---- C16: each crash site ----------------------------------------------------------- *)
-Lemma crash_undeclared_operand : validate w_D11a_undeclared_operand = Exn KeyError.
-Proof. vm_compute. reflexivity. Qed.
-Lemma crash_unknown_attribute_operand : validate w_unknown_attribute_operand = Exn KeyError.
-Proof. vm_compute. reflexivity. Qed.
-Lemma crash_not_operand : validate w_D11a_not_operand = Exn KeyError.
-Proof. vm_compute. reflexivity. Qed.
-Lemma crash_array_element_in_guard : validate w_D11a_array_element_in_guard = Exn TypeError.
-Proof. vm_compute. reflexivity. Qed.
-Lemma crash_array_element_as_condition : validate w_array_element_as_condition = Exn TypeError.
-Proof. vm_compute. reflexivity. Qed.
-Lemma crash_index_on_struct_attribute : validate w_D11c_index_on_struct_attribute = Exn AttributeError.
-Proof. vm_compute. reflexivity. Qed.
-Lemma crash_field_after_array : validate w_field_after_array = Exn TypeError.
-Proof. vm_compute. reflexivity. Qed.
-Lemma crash_array_variable_path : validate w_array_variable_path = Exn TypeError.
-Proof. vm_compute. reflexivity. Qed.
-Lemma crash_primitive_array_element : validate w_D11c_primitive_array_element = Exn KeyError.
-Proof. vm_compute. reflexivity. Qed.
-Lemma crash_nested_literal_key : validate w_D11d_unknown_key_in_nested_literal = Exn KeyError.
-Proof. vm_compute. reflexivity. Qed.
+(* ---- the hypothesis on the AST shape is needed: an index directly after the variable (which
+   the grammar cannot produce) passes check_attribute_access and raises in the unguarded walk
+   of check_if_input_parameter_matches ---- *)
+Lemma nongrammar_ast_raises :
+  from_grammar w_nongrammar_path = false /\ validate w_nongrammar_path = Exn KeyError.
+Proof. vm_compute. split; reflexivity. Qed.
 
-Lemma not_always_a_verdict : ~ C16_always_a_verdict.
-Proof.
-  intro H. destruct (H w_D11a_undeclared_operand) as [es Hes].
-  rewrite crash_undeclared_operand in Hes. discriminate.
-Qed.
-
-(* the guard excludes each of them *)
-Lemma crash_witnesses_outside_guard :
-  crash_free w_D11a_undeclared_operand = false /\ crash_free w_unknown_attribute_operand = false
-  /\ crash_free w_D11a_not_operand = false /\ crash_free w_D11a_array_element_in_guard = false
-  /\ crash_free w_array_element_as_condition = false /\ crash_free w_D11c_index_on_struct_attribute = false
-  /\ crash_free w_field_after_array = false /\ crash_free w_array_variable_path = false
-  /\ crash_free w_D11c_primitive_array_element = false
-  /\ crash_free w_D11d_unknown_key_in_nested_literal = false.
+(* ---- repaired: the former crash sites now report (D11a, D11c, D11d) ------------------- *)
+Lemma former_crash_sites_report :
+  validate w_D11a_undeclared_operand = Ok [(KCmpTypes, CStmt 0 [1])]
+  /\ validate w_unknown_attribute_operand = Ok [(KCmpTypes, CStmt 0 [1])]
+  /\ validate w_D11a_not_operand = Ok [(KCmpTypes, CStmt 0 [1])]
+  /\ validate w_D11c_index_on_struct_attribute = Ok [(KIndexMismatch, CStmtIn 0 [1])]
+  /\ validate w_field_after_array = Ok [(KIndexMismatch, CStmtIn 0 [1])]
+  /\ validate w_array_variable_path = Ok [(KUnknownVariable, CStmtIn 0 [1])]
+  /\ validate w_D11d_unknown_key_in_nested_literal = Ok [(KUnknownAttrInLit, CLitJson 0 [0] 0)].
 Proof. vm_compute. repeat split; reflexivity. Qed.
 
-(* ---- C10: catalogued errors that are accepted --------------------------------------- *)
-Lemma accepted_self_recursion : has_recursion w_D8_self_recursion = true /\ validate w_D8_self_recursion = Ok [].
-Proof. vm_compute. split; reflexivity. Qed.
-Lemma accepted_mutual_recursion : has_recursion w_mutual_recursion = true /\ validate w_mutual_recursion = Ok [].
-Proof. vm_compute. split; reflexivity. Qed.
-Lemma accepted_recursion_through_parallel :
-  has_recursion w_recursion_through_parallel = true /\ validate w_recursion_through_parallel = Ok [].
-Proof. vm_compute. split; reflexivity. Qed.
-Lemma accepted_recursion_through_parloop :
-  has_recursion w_recursion_through_parloop = true /\ validate w_recursion_through_parloop = Ok [].
-Proof. vm_compute. split; reflexivity. Qed.
-Lemma accepted_unknown_task_in_parloop :
-  sh_parloop_call w_D9_unknown_task_in_parallel_loop = true /\ validate w_D9_unknown_task_in_parallel_loop = Ok [].
-Proof. vm_compute. split; reflexivity. Qed.
-Lemma accepted_wrong_arity_in_parloop :
-  sh_parloop_call w_parloop_wrong_arity = true /\ validate w_parloop_wrong_arity = Ok [].
-Proof. vm_compute. split; reflexivity. Qed.
-Lemma accepted_undeclared_limit : has_bad_limit w_D10_undeclared_limit = true /\ validate w_D10_undeclared_limit = Ok [].
-Proof. vm_compute. split; reflexivity. Qed.
-Lemma accepted_unknown_attribute_limit :
-  has_bad_limit w_limit_unknown_attribute = true /\ validate w_limit_unknown_attribute = Ok [].
-Proof. vm_compute. split; reflexivity. Qed.
-Lemma accepted_string_limit : has_bad_limit w_limit_string = true /\ validate w_limit_string = Ok [].
-Proof. vm_compute. split; reflexivity. Qed.
-Lemma accepted_missing_nested_attribute :
-  sh_bad_literal w_D12a_missing_attribute_in_nested_literal = true
-  /\ validate w_D12a_missing_attribute_in_nested_literal = Ok [].
-Proof. vm_compute. split; reflexivity. Qed.
-Lemma accepted_number_in_struct_array :
-  sh_bad_literal w_D12a_number_in_struct_array = true /\ validate w_D12a_number_in_struct_array = Ok [].
-Proof. vm_compute. split; reflexivity. Qed.
-Lemma accepted_string_condition :
-  sh_bad_guard w_D12b_string_as_condition = true /\ validate w_D12b_string_as_condition = Ok [].
-Proof. vm_compute. split; reflexivity. Qed.
-Lemma accepted_number_under_and :
-  sh_bad_guard w_D12b_number_under_and = true /\ validate w_D12b_number_under_and = Ok [].
-Proof. vm_compute. split; reflexivity. Qed.
-Lemma accepted_not_number : sh_bad_guard w_not_number = true /\ validate w_not_number = Ok [].
-Proof. vm_compute. split; reflexivity. Qed.
-Lemma accepted_bool_in_arithmetic :
-  sh_bad_guard w_bool_literal_in_arithmetic = true /\ validate w_bool_literal_in_arithmetic = Ok [].
-Proof. vm_compute. split; reflexivity. Qed.
-Lemma accepted_number_condition : sh_bad_guard w_number_as_condition = true /\ validate w_number_as_condition = Ok [].
-Proof. vm_compute. split; reflexivity. Qed.
+(* ---- repaired: formerly accepted catalogue entries are reported (D8, D9, D10, D12a) ---- *)
+Lemma formerly_accepted_now_reported :
+  validate w_D8_self_recursion = Ok [(KRecursion, CStmt 1 [1])]
+  /\ validate w_mutual_recursion = Ok [(KRecursion, CStmt 1 [1]); (KRecursion, CStmt 2 [0])]
+  /\ validate w_recursion_through_parallel = Ok [(KRecursion, CStmt 1 [1; 0])]
+  /\ validate w_recursion_through_parloop = Ok [(KRecursion, CStmt 1 [1; 0])]
+  /\ validate w_D9_unknown_task_in_parallel_loop = Ok [(KUnknownTask, CStmt 0 [1; 0])]
+  /\ validate w_parloop_wrong_arity = Ok [(KInLen, CStmt 0 [1; 0])]
+  /\ validate w_D10_undeclared_limit = Ok [(KUnknownVariable, CStmt 0 [1])]
+  /\ validate w_limit_unknown_attribute = Ok [(KNoAttribute, CStmt 0 [1])]
+  /\ validate w_limit_string = Ok [(KLimitNotNumber, CStmt 0 [1])]
+  /\ validate w_D12a_missing_attribute_in_nested_literal = Ok [(KMissingAttr, CLitJson 0 [0] 0)]
+  /\ validate w_D12a_number_in_struct_array
+     = Ok [(KArrayElem, CLitJson 0 [0] 0); (KWrongTypeArray, CLit 0 [0] 0)].
+Proof. vm_compute. repeat split; reflexivity. Qed.
 
-(* ---- C11: well-formed programs that are not accepted --------------------------------- *)
-Lemma wf_rejected_string_equality :
-  wf_dec w_D20_string_equality = true /\ validate w_D20_string_equality = Ok [(KNotBoolean, CStmt 0 [1])].
-Proof. vm_compute. split; reflexivity. Qed.
-Lemma wf_crash_array_element_in_guard :
-  wf_dec w_D11a_array_element_in_guard = true /\ validate w_D11a_array_element_in_guard = Exn TypeError.
-Proof. vm_compute. split; reflexivity. Qed.
-Lemma wf_crash_primitive_array_element :
-  wf_dec w_D11c_primitive_array_element = true /\ validate w_D11c_primitive_array_element = Exn KeyError.
-Proof. vm_compute. split; reflexivity. Qed.
-Lemma wf_crash_array_element_as_condition :
-  wf_dec w_array_element_as_condition = true /\ validate w_array_element_as_condition = Exn TypeError.
-Proof. vm_compute. split; reflexivity. Qed.
-
-(* ---- C19: a message without a position ------------------------------------------------ *)
-Lemma arraylen_without_line : validate w_D21_array_length_by_name = Ok [(KArrayLen, CNone)].
-Proof. vm_compute. reflexivity. Qed.
-
-(* ---- a fault deep inside is reported, with the position of the call ------------------- *)
-Lemma unknown_task_reported_at_its_position :
-  validate w_unknown_task = Ok [(KUnknownTask, CStmt 0 [1; 0; 0; 1])].
-Proof. vm_compute. reflexivity. Qed.
-
-(* ---- the conjunctions stated in Properties/C10.v --------------------------------------- *)
-Lemma recursion_accepted_all :
-  (has_recursion w_D8_self_recursion = true /\ validate w_D8_self_recursion = Ok [])
-  /\ (has_recursion w_mutual_recursion = true /\ validate w_mutual_recursion = Ok [])
-  /\ (has_recursion w_recursion_through_parallel = true /\ validate w_recursion_through_parallel = Ok [])
-  /\ (has_recursion w_recursion_through_parloop = true /\ validate w_recursion_through_parloop = Ok []).
-Proof.
-  exact (conj accepted_self_recursion (conj accepted_mutual_recursion
-        (conj accepted_recursion_through_parallel accepted_recursion_through_parloop))).
-Qed.
-
-Lemma parallel_loop_call_accepted_all :
-  (sh_parloop_call w_D9_unknown_task_in_parallel_loop = true /\ validate w_D9_unknown_task_in_parallel_loop = Ok [])
-  /\ (sh_parloop_call w_parloop_wrong_arity = true /\ validate w_parloop_wrong_arity = Ok []).
-Proof. exact (conj accepted_unknown_task_in_parloop accepted_wrong_arity_in_parloop). Qed.
-
-Lemma loop_limit_accepted_all :
-  (has_bad_limit w_D10_undeclared_limit = true /\ validate w_D10_undeclared_limit = Ok [])
-  /\ (has_bad_limit w_limit_unknown_attribute = true /\ validate w_limit_unknown_attribute = Ok [])
-  /\ (has_bad_limit w_limit_string = true /\ validate w_limit_string = Ok []).
-Proof. exact (conj accepted_undeclared_limit (conj accepted_unknown_attribute_limit accepted_string_limit)). Qed.
-
-Lemma literal_accepted_all :
-  (sh_bad_literal w_D12a_missing_attribute_in_nested_literal = true
-   /\ validate w_D12a_missing_attribute_in_nested_literal = Ok [])
-  /\ (sh_bad_literal w_D12a_number_in_struct_array = true /\ validate w_D12a_number_in_struct_array = Ok []).
-Proof. exact (conj accepted_missing_nested_attribute accepted_number_in_struct_array). Qed.
-
+(* ---- C10 / C09: still accepted — guards are not type checked as a whole (D12b) ----------- *)
 Lemma guard_type_accepted_all :
   (sh_bad_guard w_D12b_string_as_condition = true /\ validate w_D12b_string_as_condition = Ok [])
   /\ (sh_bad_guard w_D12b_number_under_and = true /\ validate w_D12b_number_under_and = Ok [])
   /\ (sh_bad_guard w_not_number = true /\ validate w_not_number = Ok [])
   /\ (sh_bad_guard w_bool_literal_in_arithmetic = true /\ validate w_bool_literal_in_arithmetic = Ok [])
   /\ (sh_bad_guard w_number_as_condition = true /\ validate w_number_as_condition = Ok []).
+Proof. vm_compute. repeat split; reflexivity. Qed.
+
+Lemma not_accepted_guards_typed : ~ C09_accepted_guards_typed.
 Proof.
-  exact (conj accepted_string_condition (conj accepted_number_under_and (conj accepted_not_number
-        (conj accepted_bool_in_arithmetic accepted_number_condition)))).
+  intro H. assert (Hv : validate w_D12b_string_as_condition = Ok []) by (vm_compute; reflexivity).
+  specialize (H _ Hv). vm_compute in H. discriminate.
 Qed.
 
-Lemma raises_instead_of_reporting_all :
-  validate w_D11a_undeclared_operand = Exn KeyError
-  /\ validate w_unknown_attribute_operand = Exn KeyError
-  /\ validate w_D11c_index_on_struct_attribute = Exn AttributeError
-  /\ validate w_D11d_unknown_key_in_nested_literal = Exn KeyError.
-Proof.
-  exact (conj crash_undeclared_operand (conj crash_unknown_attribute_operand
-        (conj crash_index_on_struct_attribute crash_nested_literal_key))).
-Qed.
-
-(* ---- C19 ------------------------------------------------------------------------------- *)
-From PFDL.Check Require Import CheckProofsC19.
-Lemma not_every_message_has_a_position : ~ C19_every_message_has_a_position.
-Proof.
-  intro H. apply (H w_D21_array_length_by_name _ (KArrayLen, CNone) arraylen_without_line).
-  - left. reflexivity.
-  - reflexivity.
-Qed.
-
-Lemma lenvar_guard_inhabited : sh_lenvar w_good_small = false /\ sh_lenvar w_D21_array_length_by_name = true.
+(* ---- C11: well-formed programs that are rejected (D24, D25) ----------------------------- *)
+Lemma wf_rejected_string_equality :
+  wf_dec w_D24_string_equality = true /\ validate w_D24_string_equality = Ok [(KNotBoolean, CStmt 0 [1])].
+Proof. vm_compute. split; reflexivity. Qed.
+Lemma wf_rejected_parenthesised_string :
+  wf_dec w_D24_parenthesised_string_operand = true
+  /\ validate w_D24_parenthesised_string_operand = Ok [(KCmpTypes, CStmt 0 [1])].
+Proof. vm_compute. split; reflexivity. Qed.
+Lemma wf_rejected_array_element_in_guard :
+  wf_dec w_D25_array_element_in_guard = true
+  /\ validate w_D25_array_element_in_guard = Ok [(KCmpTypes, CStmt 0 [1])].
+Proof. vm_compute. split; reflexivity. Qed.
+Lemma wf_rejected_array_element_as_condition :
+  wf_dec w_array_element_as_condition = true
+  /\ validate w_array_element_as_condition = Ok [(KNotBoolean, CStmt 0 [1])].
+Proof. vm_compute. split; reflexivity. Qed.
+Lemma wf_rejected_array_element_as_limit :
+  wf_dec w_D25_array_element_as_limit = true
+  /\ validate w_D25_array_element_as_limit = Ok [(KLimitNotNumber, CStmt 0 [1])].
+Proof. vm_compute. split; reflexivity. Qed.
+Lemma wf_rejected_primitive_array_element :
+  wf_dec w_D25_primitive_array_element = true
+  /\ validate w_D25_primitive_array_element = Ok [(KNotAStruct, CStmtIn 0 [1])].
 Proof. vm_compute. split; reflexivity. Qed.
 
-(* ---- C09 ------------------------------------------------------------------------------- *)
-From PFDL.Check Require Import CheckProofsC09.
-Lemma accepted_not_sched_safe :
-  (validate w_D8_self_recursion = Ok [] /\ sched_safe w_D8_self_recursion = false)
-  /\ (validate w_D9_unknown_task_in_parallel_loop = Ok [] /\ sched_safe w_D9_unknown_task_in_parallel_loop = false)
-  /\ (validate w_D10_undeclared_limit = Ok [] /\ sched_safe w_D10_undeclared_limit = false)
-  /\ (validate w_D12b_string_as_condition = Ok [] /\ sched_safe w_D12b_string_as_condition = false).
-Proof. vm_compute. repeat split; reflexivity. Qed.
-
-Lemma not_accepted_is_sched_safe : ~ C09_accepted_is_sched_safe.
-Proof.
-  intro H. destruct accepted_not_sched_safe as [[Ha Hs] _]. rewrite (H _ Ha) in Hs. discriminate.
-Qed.
-
-Lemma sched_safe_inhabited : validate w_good_small = Ok [] /\ sched_safe w_good_small = true
-                             /\ sched_safe_unchecked w_good_small = true.
-Proof. vm_compute. repeat split; reflexivity. Qed.
-
-(* ---- C11 ------------------------------------------------------------------------------- *)
-From PFDL.Check Require Import TypingProofs CheckProofsC11.
 Lemma not_wf_accepted : ~ C11_wf_accepted.
 Proof.
   intro H. destruct wf_rejected_string_equality as [Hwf Hv].
   apply wf_dec_correct in Hwf. rewrite (H _ Hwf) in Hv. discriminate.
 Qed.
 
-Lemma c11_guard_inhabited :
-  wf_dec w_good_small = true /\ c11_guard w_good_small = true /\ crash_free w_good_small = true
-  /\ sh_string_eq w_good_small = false.
-Proof. vm_compute. repeat split; reflexivity. Qed.
-
 Lemma c11_witnesses_outside_guard :
-  c11_guard w_D20_string_equality = false /\ c11_guard w_D20_parenthesised_string_operand = false
-  /\ c11_guard w_D11a_array_element_in_guard = false /\ c11_guard w_D11c_primitive_array_element = false
-  /\ c11_guard w_array_element_as_condition = false.
+  c11_guard w_D24_string_equality = false /\ c11_guard w_D24_parenthesised_string_operand = false
+  /\ c11_guard w_D25_array_element_in_guard = false /\ c11_guard w_array_element_as_condition = false
+  /\ c11_guard w_D25_array_element_as_limit = false /\ c11_guard w_D25_primitive_array_element = false.
 Proof. vm_compute. repeat split; reflexivity. Qed.
 
-Lemma wf_rejected_parenthesised_string :
-  wf_dec w_D20_parenthesised_string_operand = true
-  /\ validate w_D20_parenthesised_string_operand = Ok [(KCmpTypes, CStmt 0 [1])].
-Proof. vm_compute. split; reflexivity. Qed.
+(* ---- C19: the array-length message now carries the line of the definition (D21) --------- *)
+Lemma arraylen_with_position : validate w_D21_array_length_by_name = Ok [(KArrayLen, CStructAttr 2 1)].
+Proof. vm_compute. reflexivity. Qed.
+
+(* a fault deep inside is reported with the position of the call *)
+Lemma unknown_task_reported_at_its_position :
+  validate w_unknown_task = Ok [(KUnknownTask, CStmt 0 [1; 0; 0; 1])].
+Proof. vm_compute. reflexivity. Qed.
